@@ -21,10 +21,12 @@ FailedPoly(t) ==
         ct == CoefTable(EdgeSet(t.E), t.root)
         Z == SetOf(t.zero_u)   O == SetOf(t.one_u)          \* vertices whose u was the number 0 / the number 1
         T2 == SetOf(t.two_u)   H == SetOf(t.half_u)         \* ... the number 2 / the number 1/2 (result scaled by 2^|H|)
-        fixed == O \cup T2 \cup H
+        NG == SetOf(t.neg_u)                                \* ... the number -1
+        fixed == O \cup T2 \cup H \cup NG
         rows == {r \in ct : r[2] \cap Z = {}}
         keys == {<<r[1], r[2] \ fixed>> : r \in rows}
         wt(r) == r[3] * Pow(2, Cardinality(r[2] \cap T2)) * Pow(2, Cardinality(H) - Cardinality(r[2] \cap H))
+                      * (IF Cardinality(r[2] \cap NG) % 2 = 1 THEN -1 ELSE 1)
         exp == IF Z = {} /\ fixed = {} THEN ct
                ELSE {x \in {<<k[1], k[2], ISumSet({r \in rows : r[1] = k[1] /\ r[2] \ fixed = k[2]}, wt)>> : k \in keys} : x[3] # 0}
     IN IF got = exp THEN {} ELSE
